@@ -276,7 +276,7 @@ func TestPropCrashOps(t *testing.T) {
 // Stops that fail first so that records sit in the retry queue while other sends are in flight.  Decides
 // clause (2) for the retry queue's two delivery paths (channel, ticker) and clauses (1) (3) under latency.
 func TestPropSlowServer(t *testing.T) {
-	vstat.Checks(1200, 24000)
+	vstat.Checks(1200, 12000)
 	rapid.Check(t, func(rt *rapid.T) {
 		h := genHistory(rt, genMode{graceful: true, maxOps: 12, latPct: 100, slow: true})
 		judge(rt, h, nil, execute(t, h, nil), "slow-server")
@@ -286,7 +286,7 @@ func TestPropSlowServer(t *testing.T) {
 // TestPropSlowServerCrashOps: the same with crashes at quiescent points (requests travelling at the moment of
 // the crash are dropped with the process).
 func TestPropSlowServerCrashOps(t *testing.T) {
-	vstat.Checks(800, 16000)
+	vstat.Checks(800, 8000)
 	rapid.Check(t, func(rt *rapid.T) {
 		h := genHistory(rt, genMode{graceful: true, crashOps: true, maxOps: 12, latPct: 100, slow: true})
 		judge(rt, h, nil, execute(t, h, nil), "slow-server-crash-op")
